@@ -300,9 +300,11 @@ def run(tier, seed):
         overlap = any(w <= S_arity(m) for w in m["wb"])
         if overlap and (c["ab"] == "T" or c["ba"] == "T" or commute):
             nontriv.add((m["a"], m["b"], tuple(m["wb"])))
-        if len(samples) < 4 and overlap and c["ab"] == "T" and m["a"] != m["b"] and len(m["wb"]) >= 2:
+        isw = bool(words)
+        if overlap and c["ab"] == "T" and m["a"] != m["b"] and len(m["wb"]) >= 2 and \
+                sum(1 for s_ in samples if s_["pauli_words"] == isw) < 2:
             samples.append({"a": m["ops"][0], "b": m["ops"][1], "is_commuting(a,b)": c["ab"], "is_commuting(b,a)": c["ba"],
-                            "tlc_commute": bool(commute), "verdict": [cab, cba]})
+                            "tlc_commute": bool(commute), "verdict": [cab, cba], "pauli_words": isw})
     nneg = 0
     for (idx, k, orig) in neg:
         cab = verd[idx][0]
